@@ -76,7 +76,7 @@ def _gen_rec(r, **kw):
 
 
 def gen_cases(rng, tier):
-    n = {"quick": 250, "thorough": 5000, "search": 1500}[tier]
+    n = {"quick": 800, "thorough": 5000, "search": 1500}[tier]
     cases = []
     r = rng.fork("merge")
     for _ in range(n):
@@ -107,7 +107,14 @@ def gen_cases(rng, tier):
                 members.append(["grouped", r.choice(TN), [_gen_rec(r) for _ in range(r.randint(1, 3))]])
             else:
                 members.append(_gen_rec(r))
-        cases.append({"kind": "grouped", "name": r.choice(TN), "members": members})
+        flat = _flatten(members)
+        probe = None
+        cand = [(t, fn) for m_ in flat for t, fn in m_[1][1]]
+        if cand and r.chance(70):
+            t, fn = r.choice(cand)
+            first_t = next(tt for m_ in flat for tt, ff in m_[1][1] if ff == fn)
+            probe = [fn, V.gen_value(r, first_t, none_chance=10)]
+        cases.append({"kind": "grouped", "name": r.choice(TN), "members": members, "assign": probe})
     r = rng.fork("replace")
     for _ in range(n // 2):
         rec = _gen_rec(r)
@@ -213,8 +220,17 @@ def run_real(case):
                 except AttributeError:
                     vals.append(None)
             del flat
-            return {"inputs": before, "inputs_after": [obs_rec(x) for x in g.records], "keys": keys, "values": vals,
-                    "output": {"name": g._desc.name, "fields": [list(t) for t in g._desc.get_field_tuples()]}}
+            res = {"inputs": before, "inputs_after": [obs_rec(x) for x in g.records], "keys": keys, "values": vals,
+                   "output": {"name": g._desc.name, "fields": [list(t) for t in g._desc.get_field_tuples()]}}
+            if case.get("assign"):
+                fn, spec = case["assign"]
+                owner = next(i for i, x in enumerate(g.records) if fn in x.__slots__)
+                # assignment (unlike construction) stores None as it is
+                want = ["none"] if spec == ["none"] else _coerced_obs(g.records[owner]._desc, fn, V.build(spec))
+                setattr(g, fn, V.build(spec))
+                res["assign"] = {"owner": owner, "want": want, "after": [obs_rec(x) for x in g.records],
+                                 "read_back": V.observe(getattr(g, fn))}
+            return res
         if k == "replace":
             rec = V.build(case["record"])
             before = [obs_rec(rec)]
@@ -378,6 +394,18 @@ def oracle(case, obs):
             w = [vals[kk]] if kk in vals else None
             if v != w:
                 return f"grouped.{kk} is {json.dumps(v)[:70]} instead of the first member's {json.dumps(w)[:70]}"
+        a = obs.get("assign")
+        if a:
+            fn = case["assign"][0]
+            for i, (b4, af) in enumerate(zip(ins, a["after"])):
+                for (k1, v1), (k2, v2) in zip(b4["slots"], af["slots"]):
+                    if i == a["owner"] and k1 == fn:
+                        if v2 != a["want"]:
+                            return f"assignment to grouped.{fn} did not reach the first member that has the field"
+                    elif v1 != v2:
+                        return f"assignment to grouped.{fn} changed {k1} of member {i}"
+            if a["read_back"] != a["want"]:
+                return f"grouped.{fn} does not read back the assigned value"
         return None
     if k == "replace":
         orig = obs["inputs"][0]
